@@ -285,6 +285,7 @@ def run_ops(case):
 					obs['final_content'] = None
 			except Exception as exc:
 				obs['final_content'] = None
+			obs['final_fd'] = fd_obs(m.body)
 			obs['tables'] = {
 				'comp': [[k[0], k[1].hex(), v.hex()] for k, v in REC.comp.items()],
 				'lsplit': [[k[0].hex(), k[1].hex(), [x.hex() for x in v]] for k, v in REC.lsplit.items()],
